@@ -531,4 +531,16 @@ CANARIES.update({
         job="c17:apply_transform[transformed_before=False]", expect=["dynamo_cache_reset_immediately_before_each_compilation"],
     ),
 })
+CANARIES.update({
+    "c16-private-kwargs-kept": dict(
+        props=["C16"], file=US_FILE, module=US_MOD,
+        old='if not k.startswith("_") or k in params}', new='if True or k in params}',
+        job="c16:node[nn.Softmax]", expect=[_BK + ":node_rewritten_as_the_recipe_prescribes"],
+    ),
+    "c16-all-unknown-kwargs-dropped": dict(
+        props=["C16"], file=US_FILE, module=US_MOD,
+        old='if not k.startswith("_") or k in params}', new='if k in params}',
+        job="c16:_supported_kwargs", expect=["C16:transforms._unit_scale._supported_kwargs:keeps_every_argument_except_private_ones_the_function_lacks"],
+    ),
+})
 
